@@ -57,6 +57,8 @@ func runC05(c *Ctx) {
 	defer c05SampleThenScan(c)
 	c.Rule("C05.R9", "a pushed host set is always installed: every update handler reaches Cluster.UpdateHosts, the manager always runs the handler", 4)
 	defer c05ReplacementInstalled(c)
+	c.Rule("C05.R10", "the balancer a snapshot publishes is built from the host set the same snapshot publishes", 1)
+	defer snapshotLBBuiltFromItsHostSet(c, "C05.R10")
 	c.Assumptions = append(c.Assumptions,
 		"Health() observed true earlier on the path counts as healthy (a concurrent flip after the check is outside the clause)",
 		"no reflection/unsafe in the balancers",
